@@ -93,6 +93,26 @@ func ClausePaths(p *core.Program, nk *NodeKinds, d *Dispatcher, conf ConsumeConf
 			return fd.Body, fd
 		}
 		paths := w.list(cc.Body, []Path{{}}, 0)
+		// what follows the switch in the dispatcher belongs to every clause that falls out of
+		// it (a call made once after the switch instead of at the end of each clause)
+		var after []ast.Stmt
+		for i, st := range d.Func.Body.List {
+			inner := st
+			if ls, ok := st.(*ast.LabeledStmt); ok {
+				inner = ls.Stmt
+			}
+			if inner == ast.Stmt(d.Switch) {
+				after = d.Func.Body.List[i+1:]
+			}
+		}
+		if len(after) > 0 {
+			for i := range paths {
+				if paths[i].Term == "break" {
+					paths[i].Term = ""
+				}
+			}
+			paths = w.list(after, paths, 0)
+		}
 		if w.Overflow {
 			problems = append(problems, fmt.Sprintf("%s clause %s: path enumeration overflow", core.FuncName(d.Rel, d.Func), kname))
 		}
